@@ -165,8 +165,10 @@ static void check_adjoint(World& w)
   w.Acol.assign(w.nvox, Vec());
   w.ATrow.assign(w.nb, Vec());
   Vec e(w.nvox, 0.0), f(w.nb, 0.0);
-  for (size_t j = 0; j < w.nvox; ++j) { e[j] = 1; w.Acol[j] = w.A(e); e[j] = 0; w.ctx.count("evaluations"); }
-  for (size_t b = 0; b < w.nb; ++b) { f[b] = 1; w.ATrow[b] = w.AT(f); f[b] = 0; w.ctx.count("evaluations"); }
+  // every unit image / unit data set is a distinct case; it is non-trivial when its projection is not identically zero
+  auto nz = [](const Vec& v) { for (double x : v) if (x != 0) return true; return false; };
+  for (size_t j = 0; j < w.nvox; ++j) { e[j] = 1; w.Acol[j] = w.A(e); e[j] = 0; w.ctx.count("evaluations"); if (nz(w.Acol[j])) w.ctx.nontrivial(w.kase + ";unit_voxel=" + vmc::str(j)); }
+  for (size_t b = 0; b < w.nb; ++b) { f[b] = 1; w.ATrow[b] = w.AT(f); f[b] = 0; w.ctx.count("evaluations"); if (nz(w.ATrow[b])) w.ctx.nontrivial(w.kase + ";unit_bin=" + vmc::str(b)); }
   size_t nnz = 0;
   for (size_t b = 0; b < w.nb; ++b)
     {
@@ -457,10 +459,27 @@ static void check_accumulate(World& w)
 }
 
 // ---------------------------------------------------------------- on-the-fly ray tracing forward projector vs matrix
+// rings whose centre falls exactly on the boundary between two image planes (e.g. an even number of planes with z spacing =
+// ring spacing / 2): which plane a direct LOR "lies in" is a rounding tie (excluded by the statement of C03), and the on-the-fly
+// projector and the matrix resolve it differently.  Such grids are not compared.
+static bool rings_on_plane_boundaries(const World& w)
+{
+  const int R = w.b.pdi->get_scanner_ptr()->get_num_rings();
+  const double nz = (double)w.b.im->get_z_size();
+  const double planes_per_ring = w.b.pdi->get_scanner_ptr()->get_ring_spacing() / w.b.im->get_voxel_size().z();
+  for (int r = 0; r < R; ++r)
+    {
+      const double zp = (nz - 1) / 2 + (r - (R - 1) / 2.0) * planes_per_ring + w.b.im->get_origin().z() / w.b.im->get_voxel_size().z() * 0; // origin shifts are whole planes
+      if (std::fabs(zp - std::floor(zp + 0.5)) > 1e-6) return true;
+    }
+  return false;
+}
+
 static void check_raytracing_projector(World& w)
 {
   // identical settings: one ray per bin, same FOV shape; the on-the-fly projector needs z spacing = ring spacing / 2
   if (w.pc.L != 1 || w.g.zd != 2 || w.g.tof) return;
+  if (rings_on_plane_boundaries(w)) { w.ctx.count("raytracing_projector_configs_skipped_rings_on_plane_boundaries"); return; }
   shared_ptr<ForwardProjectorByBinUsingRayTracing> rt(new ForwardProjectorByBinUsingRayTracing());
   rt->restrict_to_cylindrical_FOV = w.pc.fov != 0;
   std::string what;
@@ -503,6 +522,82 @@ static void check_raytracing_projector(World& w)
     }
 }
 
+// sub-range calls of the on-the-fly ray-tracing projector: bins outside the requested window untouched, bins inside equal to the
+// matrix projector's value (either written or accumulated onto the pre-filled value, the same way for the whole call)
+static void check_raytracing_subranges(World& w, bool all_ranges)
+{
+  if (w.pc.L != 1 || w.g.zd != 2 || w.g.tof || rings_on_plane_boundaries(w)) return;
+  shared_ptr<ForwardProjectorByBinUsingRayTracing> rt(new ForwardProjectorByBinUsingRayTracing());
+  rt->restrict_to_cylindrical_FOV = w.pc.fov != 0;
+  std::string what;
+  if (small::throws([&] { rt->set_up(w.b.pdi, w.b.im); }, &what)) return;
+  const ProjDataInfo& p = *w.b.pdi;
+  shared_ptr<DataSymmetriesForViewSegmentNumbers> sym(rt->get_symmetries_used()->clone());
+  const double delta = g34::delta_of(*w.b.pdi, *w.b.im);
+  Vec x(w.nvox), Ax(w.nb, 0.0), saA(w.nb, 0.0), rowmax(w.nb, 0.0);
+  double sx = 0;
+  for (size_t j = 0; j < w.nvox; ++j) { x[j] = 1 + (double)(j % 5); sx += x[j]; }
+  for (size_t j = 0; j < w.nvox; ++j) for (size_t b = 0; b < w.nb; ++b) { Ax[b] += x[j] * w.Acol[j][b]; saA[b] += std::fabs(x[j] * w.Acol[j][b]); rowmax[b] = std::max(rowmax[b], std::fabs(w.Acol[j][b])); }
+  std::vector<char> screened(w.nb, 0);
+  for (size_t b = 0; b < w.nb; ++b) screened[b] = g34::screen(*w.b.pdi, *w.b.im, w.bi->bins[b], 1, w.pc.fov != 0, g34::screen_thr(delta));
+  auto ximg = w.image(x);
+  auto ydat = w.data(Vec(w.nb, 0.0));
+  const float SENT = 7.F;
+  const int tmin = p.get_min_tangential_pos_num(), tmax = p.get_max_tangential_pos_num();
+  for (int seg = p.get_min_segment_num(); seg <= p.get_max_segment_num(); ++seg)
+    for (int v = p.get_min_view_num(); v <= p.get_max_view_num(); ++v)
+      {
+        const ViewSegmentNumbers vs(v, seg);
+        if (!sym->is_basic(vs)) continue;
+        w.ctx.count("raytracing_related_viewgram_groups");
+        const int amin = p.get_min_axial_pos_num(seg), amax = p.get_max_axial_pos_num(seg);
+        std::vector<std::array<int, 4>> ranges;
+        if (all_ranges)
+          {
+            for (int t0 = tmin; t0 <= tmax; ++t0) for (int t1 = t0; t1 <= tmax; ++t1) ranges.push_back({ amin, amax, t0, t1 });
+            for (int a0 = amin; a0 <= amax; ++a0) for (int a1 = a0; a1 <= amax; ++a1) ranges.push_back({ a0, a1, tmin, tmax });
+          }
+        else
+          { // the window entirely on the negative side, entirely on the positive side, around 0, single columns, axial pieces
+            for (auto tr : std::vector<std::pair<int, int>>{ { tmin, tmax }, { tmin, -1 }, { tmin, tmin }, { -1, -1 }, { 0, 0 }, { 1, tmax }, { tmax, tmax }, { -1, 1 }, { tmin, 0 }, { 0, tmax } })
+              if (tr.first >= tmin && tr.second <= tmax && tr.first <= tr.second) ranges.push_back({ amin, amax, tr.first, tr.second });
+            if (amax > amin) { ranges.push_back({ amin, amin, tmin, tmax }); ranges.push_back({ amax, amax, tmin, -1 < tmax ? -1 : tmax }); ranges.push_back({ amin + 1, amax, 0, tmax }); }
+          }
+        for (auto& r : ranges)
+          {
+            const std::string ex = ";rtgroup=s" + vmc::str(seg) + "v" + vmc::str(v) + ";range=" + vmc::str(r[0]) + "," + vmc::str(r[1]) + "," + vmc::str(r[2]) + "," + vmc::str(r[3]);
+            const std::string rk = r[3] < 0 ? "negative_side" : (r[2] > 0 ? "positive_side" : "spans_zero");
+            stir::RelatedViewgrams<float> vg = ydat->get_empty_related_viewgrams(vs, sym);
+            vg.fill(SENT);
+            if (small::throws([&] { rt->set_input(*ximg); rt->forward_project(vg, r[0], r[1], r[2], r[3]); }, &what)) { w.viol("raytracing_subrange_throws;tangential=" + rk, ex, what); continue; }
+            w.ctx.count("evaluations"); w.ctx.count("raytracing_subrange_calls");
+            int mode = -1; // 0: values written, 1: accumulated onto the pre-filled value
+            bool bad = false;
+            for (auto it = vg.begin(); it != vg.end() && !bad; ++it)
+              for (int a = it->get_min_axial_pos_num(); a <= it->get_max_axial_pos_num() && !bad; ++a)
+                for (int t = it->get_min_tangential_pos_num(); t <= it->get_max_tangential_pos_num() && !bad; ++t)
+                  {
+                    const size_t b = w.bi->idx(it->get_segment_num(), a, it->get_view_num(), t, 0);
+                    const bool inwin = a >= r[0] && a <= r[1] && t >= r[2] && t <= r[3];
+                    const double got = (*it)[a][t];
+                    if (!inwin)
+                      {
+                        if (got != SENT)
+                          { bad = true; w.viol("raytracing_subrange_outside;tangential=" + rk, ex, "ForwardProjectorByBinUsingRayTracing::forward_project(group, range) changed bin " + small::bin_str(w.bi->bins[b]) + " outside the requested range: " + vmc::str(got) + " (pre-filled " + vmc::str(SENT) + ")"); }
+                        continue;
+                      }
+                    if (screened[b]) continue;
+                    const double tol = 100 * delta * rowmax[b] * sx + 100 * EPS * (saA[b] + SENT) + 1e-30;
+                    const bool as_written = std::fabs(got - Ax[b]) <= tol, as_added = std::fabs(got - SENT - Ax[b]) <= tol;
+                    int m = as_written && !as_added ? 0 : (as_added && !as_written ? 1 : (as_written ? mode : -2));
+                    if (m == -2 || (mode >= 0 && m >= 0 && m != mode))
+                      { bad = true; w.viol("raytracing_subrange_window;tangential=" + rk, ex, "ForwardProjectorByBinUsingRayTracing::forward_project(group, range) bin " + small::bin_str(w.bi->bins[b]) + " = " + vmc::str(got) + ", the matrix projector gives " + vmc::str(Ax[b]) + " (pre-filled " + vmc::str(SENT) + ")"); }
+                    else if (m >= 0) mode = m;
+                  }
+          }
+      }
+}
+
 // ---------------------------------------------------------------- one case
 static void run_case(vmc::Ctx& ctx, const Geo& g, const PairCfg& pc, bool all_ranges, bool with_rt)
 {
@@ -519,7 +614,7 @@ static void run_case(vmc::Ctx& ctx, const Geo& g, const PairCfg& pc, bool all_ra
   check_subsets(w);
   check_groups(w, all_ranges);
   check_accumulate(w);
-  if (with_rt) check_raytracing_projector(w);
+  if (with_rt) { check_raytracing_projector(w); check_raytracing_subranges(w, all_ranges); }
   if (ctx.samples.size() < 4)
     ctx.sample(g.str() + " " + pc.str() + ": " + vmc::str(w.nvox) + " unit images x " + vmc::str(w.nb) + " unit data compared element-wise; subsets 1.." + vmc::str(w.b.pdi->get_num_views()));
 }
